@@ -24,6 +24,7 @@ structure UpdFam (p : Profile) (enc peer : Codec) (m : Msg) where
   hpos : ∀ r, r ≠ [] → S r → N r ≠ 0
   hsize : ∀ r, r ≠ [] → S r → 19 + (body r).length ≤ peer.maxLen ∧ 19 + (body r).length < 65536
   hparse : ∀ od r, r ≠ [] → S r → parseUpdate od peer (frame 2 (body r)) = .msg (Q r)
+  hstruct : ∀ r, r ≠ [] → S r → frameLengths (frame 2 (body r)) = none
 
 theorem UpdFam.encodeTo_eq {p : Profile} {enc peer : Codec} {m : Msg} (U : UpdFam p enc peer m)
     (es : List Entry) (hes : m.entries = es) (hne : es ≠ []) (hS : U.S es) :
